@@ -143,6 +143,7 @@ fn split_list_inner(cx: &mut Cx, list: &mut Vec<Item>, first: usize, dir: &str, 
 
 /// move a part of the A2ML text into an A2ML-level include file
 pub fn split_a2ml(cx: &mut Cx, items: &mut [Item], dir: &str, st: &mut SplitState) -> bool {
+    let dir = &dir.to_string();
     for it in items.iter_mut() {
         if let Item::Node(n) = it {
             if n.tag == "A2ML" {
@@ -183,6 +184,13 @@ pub fn split_a2ml(cx: &mut Cx, items: &mut [Item], dir: &str, st: &mut SplitStat
                     return true;
                 }
             } else if split_a2ml(cx, &mut n.body, dir, st) {
+                return true;
+            }
+        } else if let Item::Inc(inc) = it {
+            // an A2ML block that was moved into an include file: its A2ML-level include is relative to that file
+            let inc_dir = dir_of(&inc.path);
+            if split_a2ml(cx, &mut inc.items, &inc_dir, st) {
+                cx.probe("a2ml-include-inside-an-included-file");
                 return true;
             }
         }
